@@ -123,6 +123,13 @@ PROPS = {
         "assumptions": TRUST + ["the 3.10 continuation rule for no-line runs longer than 254 bytes ((254,-128) chunks) cannot be produced by compile(); it is bound to CPython by read-back through PyCode_Addr2Line only"],
         "required_reach": {"quick": ["table:no-line-long@3.10", "table:no-line@3.10", "table:split-bytes", "table:split-line", "table:zero-width", "table:backward", "table:zero-delta-entry@3.7,3.8", "model-conforms-to-compile", "table-ok:model", "table-ok:real"]},
     },
+    "C08": {
+        "level": "exploration",
+        "interpreters": ALL,
+        "rule": "all ordered pairs of the constant universe S-CONST (47 atoms incl. signed zeros, NaN, infinities, 2^53 neighbours, huge ints, complex with signed zero/NaN parts, lone surrogates, tag-lookalike strings, bytes, Ellipsis; closed under 1-tuples, singleton frozensets, pairs over a 12-atom core, one more nesting level; each value built twice independently) compared as Constant, as one-instruction CodeData and against the JSON-loaded copy: == must coincide with CPython's constant partition (_PyCode_ConstantKey, NaNs merged; cross-checked against the harness's strict key on every pair), be symmetric, consistent with !=, and imply equal hashes and mutual set/dict membership; equal values encode to identical code. All ordered pairs of CodeData obtained from a spread of 300 (thorough 1500) grammar programs by 7 routes (decode, decode of an independent compile, normalize, JSON load of both, field-by-field reconstruction, decode of encode). setattr/delattr of every field of every dataclass. distinct_nontrivial = distinct equal pairs of non-identical objects + (type, field) pairs.",
+        "assumptions": TRUST + ["on 3.11-3.13 only the hand-built and JSON routes exist (from_code cannot run there)"],
+        "required_reach": {"quick": ["equal-pair-ok", "unequal-pair-ok", "frozen-ok", "route-pair-equal"]},
+    },
 }
 
 BASE_NOTE = (
@@ -173,6 +180,12 @@ MANIFEST_TEXT = {
         "note": BASE_NOTE,
         "technique": "explicit enumeration of assembler-model traces up to a length bound, each replayed against CPython's reader/assembler and the implementation",
         "engine": "explore",
+    },
+    "C08": {
+        "text": "Exhaustive over all ordered pairs of a closed constant universe (two independent copies, so identity shortcuts cannot hide an equality bug) and over all ordered pairs of CodeData produced by seven routes from a spread of programs, on seven interpreter versions (NaN hashing changed in 3.10): agreement of == with CPython's own constant partition on all pairs makes reflexivity, symmetry and transitivity consequences; hash contract and set/dict membership checked on every equal pair.",
+        "design_ref": "DESIGN.md section 4 C08",
+        "note": BASE_NOTE,
+        "technique": "exhaustive pair enumeration over a closed value universe; CPython's constant key as reference partition",
     },
     "C13": {
         "text": "Same exhaustive space; the block partition is compared with the jump-target set computed from CPython's reading: no empty block, exact starts, every later block targeted.",
